@@ -59,7 +59,7 @@ Proof.
     - exfalso. assert (X := locked_stopper_moves OUser (cancels s) p (fun s' q => with_user s' (UStop q)) s I0 Lp I11).
       destruct p; simpl in *; try discriminate; auto.
     - destruct p; simpl in *; try discriminate.
-      + unfold Model.stop_step in TU. destruct (is_on s && check_pure F); discriminate.
+      + unfold Model.stop_step in TU. destruct (is_on s && stop_never_gives_up F); discriminate.
       + unfold Model.stop_step, mu_free in TU. destruct (mu s) as [o|] eqn:Emu; [|destruct (is_on s || negb (stop_rechecks F)); discriminate].
         specialize (I6 o eq_refl). simpl in I6. rewrite orb_false_r in I6.
         unfold Model.mon_step in TM. destruct (monpc s) as [| |q|] eqn:En; simpl in *; try discriminate.
@@ -77,7 +77,7 @@ Proof.
       + exfalso. assert (X := locked_stopper_moves OMon true q (fun s' q0 => with_mon s' (NStop q0)) s I0 Lq I12).
         destruct q; simpl in *; try discriminate; auto.
       + destruct q; simpl in *; try discriminate.
-        * unfold Model.stop_step in TM. destruct (is_on s && check_pure F); discriminate.
+        * unfold Model.stop_step in TM. destruct (is_on s && stop_never_gives_up F); discriminate.
         * unfold Model.stop_step, mu_free in TM. destruct (mu s) as [o|] eqn:Emu; [|destruct (is_on s || negb (stop_rechecks F)); discriminate].
           specialize (I6 o eq_refl). simpl in I6. discriminate. }
   unfold good, call_returned, is_on. rewrite He, Eu, R. repeat split; auto.
